@@ -4,7 +4,7 @@
 // common/event/verif_hooks.go): same struct, same two goroutines, only the broker
 // call is replaced by a function that records every batch and can park on demand.
 //
-// Input  : ((prods (kind env task)*) (park k*) (script op*))   |   (storm N)
+// Input  : ((prods (kind env task)*) (park k*) (script op*))   |   (storm N)   |   (registry …) — see registry.go
 //
 //	prods   producer i publishes payload type `kind` (index in the type switch of
 //	        internalEventToKafkaEvent) with environment id number `env` and task id number
@@ -300,6 +300,9 @@ func runImpl(input string) (string, error) {
 	}
 	if in.At(0).Str() == "storm" {
 		return runStorm(in.At(1).Int())
+	}
+	if in.At(0).Str() == "registry" {
+		return runRegistry(input)
 	}
 	type prod struct{ kind, env, task int }
 	var prods []prod
@@ -755,6 +758,8 @@ func generate(tier string, r *rng.R) []fw.Case {
 	}
 	// (last, so that the cases above stay what they were for a given seed)
 	cs = append(cs, genFullCases(tier, r.Fork())...)
+	// the writer registry of core/the (see registry.go); after everything else for the same reason
+	cs = append(cs, genRegistryCases(tier, r.Fork())...)
 	return cs
 }
 
@@ -765,6 +770,9 @@ func nontrivial(input, obs string) bool {
 	}
 	if in.At(0).Str() == "storm" {
 		return in.At(1).Int() >= 100
+	}
+	if in.At(0).Str() == "registry" {
+		return registryNontrivial(in, obs)
 	}
 	o, err := sx.Parse(obs)
 	if err != nil || o.Len() < 5 {
@@ -783,6 +791,9 @@ func shrinkCands(input string) []string {
 	in, err := sx.Parse(input)
 	if err != nil || in.At(0).Str() == "storm" {
 		return nil
+	}
+	if in.At(0).Str() == "registry" {
+		return shrinkRegistry(in)
 	}
 	var out []string
 	script := in.At(2)
@@ -808,6 +819,7 @@ func shrinkCands(input string) []string {
 }
 
 func init() {
+	fw.RegisterChild(registryChild, registryChildMain)
 	fw.Register(&fw.Property{
 		ID:         "C19",
 		Generate:   generate,
@@ -821,7 +833,11 @@ func init() {
 			"and 'channel full' scenarios: the batching loop is held up in front of the FIFO's lock (fresh writer / after everything was written / first write parked), " +
 			"1..3 producers publish more than channel + hand can take (the real 10000 slots; 1..8 slots when the tree has the capacity hook), the pipeline is observed at rest " +
 			"(calls returned per producer, channel, hand, buffer, written, who waits in the send — by goroutine dump), then let go, drained and closed; " +
-			"non-trivial = at least two events accepted and at least one batch written (storm: >= 100 writers); distinct by input text",
+			"and the writer REGISTRY of core/the (one child process per case): 12..30 rounds (thorough ..60), in each 1..3 fresh topics are looked up for the first time by 2..8 callers per topic " +
+			"released together by a spinning barrier (the.EventWriterWithTopic, real KafkaWriters on an in-process broker), every caller publishes through the writer it was handed " +
+			"(in 2/3 of the cases it looks the writer up again and publishes a second event), then the.ClearEventWriters; broker held until shutdown begins / latencies 0..1 ms; " +
+			"observed per (round, topic): which writer every caller was handed (pointer identity), which of them are closed after the shutdown, what the broker had received by then; " +
+			"non-trivial = at least two events accepted and at least one batch written (storm: >= 100 writers; registry: >= 2 callers per topic); distinct by input text",
 		Shrink:  shrinkCands,
 		Workers: 4,
 		TrustedBase: []string{
@@ -829,6 +845,7 @@ func init() {
 			"hook common/event/verif_hooks.go (NewWriterForVerif builds the struct NewWriterWithTopic builds with the broker call replaced; VerifSnapshot is read-only)",
 			"'channel full' scenarios: reflection on the unexported fields toBatchMessagesChan (len/cap), messageBuffer.cond.L (the FIFO's own lock, taken and released to hold the batching loop up) and messageBuffer.buffer (len, under that lock); goroutine dumps to see who waits where; optional hook method (*KafkaWriter).VerifNewWithCap (common/event/verif_hooks_cap.go: NewWriterForVerif with the channel capacity as a parameter)",
 			"Go runtime semantics of channels, sync.Cond, sync.WaitGroup as modelled (no spurious wake-ups, Signal/Broadcast not remembered)",
+			"registry stream: an in-process kafka.RoundTripper (one partition per topic, records what produce requests carry) installed through the exported Transport field of the embedded kafka.Writer, BatchTimeout set to 1 ms, both before the writer's first use; kafka-go's Writer between the write function and that broker; 'closed' = the embedded kafka.Writer answers io.ErrClosedPipe; go/ast reading of core/the/*.go (mutex kind, Lock/defer Unlock as the first two statements, every use of the map inside such a function)",
 		},
 		Assumptions: []string{
 			"no WriteEvent is in progress or issued once Close has been called (send on a closed channel panics; the core calls ClearEventWriters at shutdown only)",
